@@ -42,9 +42,9 @@ for p in props:
             "technique": "bounded symbolic execution of the real code's go/ssa + SMT (z3), counterexamples replayed natively",
         })
 na = [{"property_id": p['id'], "reason": NA_REASON.get(p['id'], "check not built yet (work in progress); see DESIGN.md")} for p in props if p['id'] not in [c['property_id'] for c in checks]]
-hooks_commits = ["56ce8d5"]
+hooks_commits = ["56ce8d5", "7060a7d"]
 m = {"version": 1, "setup_cmd": "./setup.sh",
-     "hooks": {"guard": "verif", "enable": "engine loads /repo with -tags=verif; harnesses are injected by overlay, no hook code is required in /repo",
+     "hooks": {"guard": "verif", "enable": "engine and native replays build /repo with -tags=verif (verifYield hooks at the lock-free points of Compact/Backup and between the system calls of the lock file); harnesses are injected by overlay",
                "baseline_off_cmd": "cd /repo && go test -vet=off -count=1 ./...", "source_commits": hooks_commits, "add_only": True},
      "engines": [{"name": "ssax", "path": "engine", "serves_properties": [c['property_id'] for c in checks],
                   "kind_free_text": "symbolic executor over go/ssa of /repo's working tree (written for this task), SMT-LIB2 to z3; driver ./check"}],
